@@ -584,8 +584,12 @@ class HyperElastic(_Simu):
 
         # end cases ----------------------------------------------------
 
-        # flat nodal vectors (Nn * dof_n,) cannot be told from element values when Nn * dof_n == Ne
-        storedOnNodes = True if result in ["displacement", "speed", "accel"] else None
+        # the storage is known here; sizes alone cannot tell it when Nn * dof_n == Ne or Nn == Ne
+        storedOnNodes = result in [
+            "ux", "uy", "uz", "displacement", "displacement_norm", "displacement_matrix",
+            "vx", "vy", "vz", "speed", "speed_norm",
+            "ax", "ay", "az", "accel", "accel_norm",
+        ]
         return self.Results_Reshape_values(values, nodeValues, storedOnNodes)
 
     def _Calc_W(self, returnScalar=True, matrixType=MatrixType.rigi):
